@@ -235,6 +235,49 @@ c16!(c16_anm07_read_any12, 16, read_instr_never_panics::<12>(&InstrFormat07, 0, 
 //@ C16 c16_anm06_read_any8 quick default ANM v0: read_instr on 8 ARBITRARY bytes (size field symbolic too: every value, including sizes beyond the buffer, which end in an end-of-file error) returns Ok or Err and never panics
 c16!(c16_anm06_read_any8, 12, read_instr_never_panics::<8>(&InstrFormat06, 0, 0, 0));
 
+//@ C03 c03_anm_texture_rt quick default ANM texture (THTX) header: write_texture then read_texture returns the same format, width and height and the same data bytes (4 symbolic bytes), for every metadata value; a format or dimension that does not fit its 16-bit field is rejected, never stored differently
+c03h!(c03_anm_texture_rt, 10, {
+    let emitter = crate::verif_common::noop_emitter();
+    let meta = TextureMetadata { width: kani::any(), height: kani::any(), format: kani::any() };
+    let px: [u8; 4] = kani::any();
+    let data = TextureData { data: std::rc::Rc::new(px.to_vec()) };
+    let mut w = BinWriter::from_writer(&emitter, "x", std::io::Cursor::new(Vec::<u8>::with_capacity(32)));
+    if let Err(e) = write_texture(&mut w, &emitter, &data, &meta) {
+        core::mem::forget(e); core::mem::forget(w); core::mem::forget(data); core::mem::forget(emitter);
+        return;
+    }
+    vcover!(true, "the texture writer accepts some metadata");
+    let bytes: Vec<u8> = w.into_inner().into_inner();
+    assert!(bytes.len() == 16 + 4, "THTX header is 16 bytes");
+    let mut r = BinReader::from_reader(&emitter, "x", std::io::Cursor::new(bytes));
+    match read_texture(&mut r, &emitter, true) {
+        Ok((m2, Some(d2))) => {
+            assert!(m2.width == meta.width && m2.height == meta.height && m2.format == meta.format, "texture format/width/height read back differs");
+            assert!(d2.data.len() == 4, "texture data length read back differs");
+            let mut i = 0;
+            while i < 4 { assert!(d2.data[i] == px[i], "texture bytes read back differ"); i += 1; }
+            core::mem::forget(d2);
+        },
+        Ok((_, None)) => assert!(false, "texture data was not read back"),
+        Err(e) => { core::mem::forget(e); assert!(false, "written texture cannot be read back"); },
+    }
+    core::mem::forget(data);
+    core::mem::forget(emitter);
+});
+//@ C16 c16_anm_texture_no_panic quick default ANM texture (THTX) header: read_texture on 24 arbitrary bytes (any magic, format, dimensions and data size, with or without loading the image) returns a texture or an error and never panics
+c16!(c16_anm_texture_no_panic, 10, {
+    let root = crate::verif_common::noop_emitter();
+    let bytes: [u8; 24] = kani::any();
+    let with_images: bool = kani::any();
+    let mut r = BinReader::from_reader(&root, "x", std::io::Cursor::new(bytes.to_vec()));
+    match read_texture(&mut r, &root, with_images) {
+        Ok(x) => core::mem::forget(x),
+        Err(e) => core::mem::forget(e),
+    }
+    core::mem::forget(r);
+    core::mem::forget(root);
+});
+
 #[cfg(kani)]
 #[path = "/verif/.cache/playback/anm_read_write.rs"]
 mod playback;
